@@ -106,24 +106,46 @@ impl Ledger {
 
     /// Execute any executable (notarized V1/V2, system, test ...).
     pub fn exec_executable(&mut self, shard: &mut Shard, label: &str, executable: ExecutableTransaction, config: ExecutionConfig, description: String, is_system: bool) -> Exec {
-        let pre: Db = self.sim.substate_db().clone();
-        HOOK_STATS.with(|s| *s.borrow_mut() = HookStats::default());
-        clear_swallowed_panic();
-        shard.eval();
         let limits = config
             .system_overrides
             .as_ref()
             .and_then(|o| o.limit_parameters.clone())
             .unwrap_or_else(|| self.limits.clone());
         let limits_disabled = config.system_overrides.as_ref().map(|o| o.disable_limits).unwrap_or(false);
+        self.run_observed(shard, label, description, is_system || limits_disabled, limits, move |sim| sim.execute_transaction(executable, config))
+    }
+
+    /// Execute a manifest with the scrypto-test error injector: a costing error is raised at the
+    /// `error_after_count`-th system-callback step (fault injection for C02).
+    pub fn exec_injected(&mut self, shard: &mut Shard, label: &str, manifest: TransactionManifestV1, proofs: Vec<NonFungibleGlobalId>, error_after_count: u64) -> Exec {
+        let description = format!("INJECT costing error at step {error_after_count}\n{}", describe_manifest(&manifest, &proofs));
+        let limits = self.limits.clone();
+        self.run_observed(shard, label, description, false, limits, move |sim| sim.execute_manifest_with_injected_error(manifest, proofs, error_after_count))
+    }
+
+    pub fn snapshot(&self) -> (LedgerSimulatorSnapshot, History) {
+        (self.sim.create_snapshot(), self.hist.clone())
+    }
+    pub fn restore(&mut self, snap: &(LedgerSimulatorSnapshot, History)) {
+        self.sim.restore_snapshot(snap.0.clone());
+        self.hist = snap.1.clone();
+    }
+
+    /// Run `f` (which executes and commits exactly one transaction on the simulator) under the
+    /// monitor pipeline.
+    pub fn run_observed<F: FnOnce(&mut Sim) -> TransactionReceipt>(&mut self, shard: &mut Shard, label: &str, description: String, is_system: bool, limits: LimitParameters, f: F) -> Exec {
+        let pre: Db = self.sim.substate_db().clone();
+        HOOK_STATS.with(|s| *s.borrow_mut() = HookStats::default());
+        clear_swallowed_panic();
+        shard.eval();
         let sim = &mut self.sim;
-        let result = catch_mut(|| sim.execute_transaction(executable, config));
+        let result = catch_mut(|| f(sim));
         let hooks = HOOK_STATS.with(|s| s.borrow().clone());
         shard.add("hook:frames_entered", hooks.frames);
         shard.add("hook:lock_events", hooks.lock_events);
         let meta = TxMeta {
             label: label.to_string(),
-            is_system: is_system || limits_disabled,
+            is_system,
             description,
             limits,
             max_depth: if hooks.frames > 0 { Some(hooks.max_depth) } else { None },
